@@ -64,6 +64,17 @@ def subtree(obj):
     return out
 
 
+def _nest_many(items):
+    out = {}
+    for leaf, v in items:
+        d = out
+        parts = leaf.split("_")
+        for p in parts[:-1]:
+            d = d.setdefault(p, {})
+        d[parts[-1]] = v
+    return out
+
+
 def nest(magic_key, value):
     d = value
     for k in reversed(magic_key.split("_")):
@@ -334,11 +345,30 @@ class C18Session(Session):
                 s["style"] = copy.deepcopy(s.get("style"))  # encodings may be shared with the snapshot cache
                 _drop_label(s["style"])
                 if n == 0 and style_override:
-                    s.pop("style", None)
+                    s.pop("style", None)  # compared leaf by leaf below
             if sa != sb:
                 path = first_diff(sa, sb)
                 raise Violation("copy_not_equal", f"subtree member {n} ({type(a).__name__}): {path} differs between "
                                 f"original and copy", op="copy", attr=attr_of(path))
+        # with style overrides: every style leaf that was NOT overridden still equals the original's
+        if style_override:
+            over = set()
+            for k, v in kw.items():
+                if k == "style" and isinstance(v, dict):
+                    over |= set(_flatten_keys(v))
+                elif k.startswith("style_"):
+                    over.add(k[6:])
+            fo = obj.style.as_dict(flatten=True, separator="_")
+            fc = new.style.as_dict(flatten=True, separator="_")
+            for leaf, val in fo.items():
+                if leaf in ("label", "model3d_data") or leaf in over or any(leaf.startswith(o + "_") for o in over):
+                    continue
+                if any(o.startswith(leaf + "_") for o in over):
+                    continue
+                if _norm(fc.get(leaf, "<missing>")) != _norm(val):
+                    raise Violation("copy_not_equal", f"style leaf {leaf} of the copy is {fc.get(leaf)!r}, original "
+                                    f"{val!r} (not overridden by {sorted(over)})", op="copy", attr="style")
+            self.probe("copy_with_style_override")
         # the label of the copy is the documented iteration of the original's label
         if "style_label" not in kw and "style" not in kw:
             lab0 = obj.style.label if getattr(obj, "_style", None) is not None else None
@@ -371,6 +401,18 @@ class C18Session(Session):
             if not ok:
                 raise Violation("override_not_applied", f"copy.{k} != override", op="copy", attr=k)
         sub_tops = {k[6:] for k, v in kw.items() if isinstance(v, dict) and "$substyle" in v}
+        if isinstance(kw.get("style"), dict):
+            got_all = new.style.as_dict(flatten=True, separator="_")
+            tops_as_objects = {k[6:] for k, v in kw.items() if isinstance(v, dict) and "$substyle" in v}
+            for leaf in _flatten_keys(kw["style"]):
+                if "style_" + leaf in kw or leaf.split("_")[0] in tops_as_objects:
+                    continue  # the same leaf also given as a keyword: the keyword is applied on top of the dict
+                d = kw["style"]
+                for part in leaf.split("_"):
+                    d = d[part]
+                if not _style_eq(got_all.get(leaf), d):
+                    raise Violation("override_not_applied", f"copy.style.{leaf} = {got_all.get(leaf)!r}, override {d!r}",
+                                    op="copy", attr="style")
         for k, v in kw.items():
             if k.startswith("style_") and not (isinstance(v, dict) and "$substyle" in v):
                 leaf = k[6:]
@@ -519,6 +561,18 @@ def iterated_label(name):
     return name[: m.start()] + str(int(digits) + 1).zfill(len(digits))
 
 
+def _flatten_keys(d, prefix=""):
+    for k, v in d.items():
+        if isinstance(v, dict):
+            yield from _flatten_keys(v, prefix + k + "_")
+        else:
+            yield prefix + k
+
+
+def _norm(v):
+    return list(v) if isinstance(v, tuple) else v
+
+
 def _drop_label(s):
     """remove the label leaf from an encoded style (any nesting produced by snapshot.enc)"""
     if isinstance(s, dict):
@@ -618,7 +672,11 @@ class Sim:
             return
         leaves = style_leaves(s["cls"])
         picks = rng.sample(leaves, rng.randint(1, 3))
-        s["style"] = {"style_" + k: rng.choice(vals) for k, vals in picks}
+        if rng.random() < 0.35:
+            # given as ONE nested dictionary (style={...}) instead of underscore keywords
+            s["style_dict"] = _nest_many([(k, rng.choice(vals)) for k, vals in picks])
+        else:
+            s["style"] = {"style_" + k: rng.choice(vals) for k, vals in picks}
         if r > 0.6:
             s["style_init"] = True
             if rng.random() < 0.4:
@@ -660,6 +718,16 @@ class Sim:
                 else:
                     k, vals = rng.choice(style_leaves(cls))
                     kw["style_" + k] = rng.choice(vals)
+        if rng.random() < 0.2 and "style" not in kw:
+            # a nested style dictionary as override, preferably below a top-level key the object already uses
+            leaves = style_leaves(cls)
+            have = set()
+            for src in (getattr(obj, "_style_kwargs", None) or {},):
+                have |= {str(k).split("_")[0] for k in src}
+            pool = [lv for lv in leaves if lv[0].split("_")[0] in have and "_" in lv[0]] or \
+                   [lv for lv in leaves if "_" in lv[0]]
+            k, vals = rng.choice(pool)
+            kw["style"] = nest(k, rng.choice(vals))
         if rng.random() < 0.1:
             kw["style_" + rng.choice(["path", "description", "legend", "model3d"])] = {"$substyle": None}
             k_ = [k for k in kw if isinstance(kw[k], dict) and "$substyle" in kw[k]][0]
